@@ -569,9 +569,12 @@ def oracle_c04(rows, equation=True):
     fails = []
     for r in rows:
         had_cancel = False
+        dirty = False
         for idx, s in enumerate(r["steps"]):
             snap = s["snap"]
             k = s["op"]["k"]
+            if k == "restore":
+                dirty = False
             if k == "cancel" and s["rc"] == [0]:
                 had_cancel = True
             if k == "scan" and s["op"].get("del"):
@@ -627,7 +630,26 @@ def oracle_c04(rows, equation=True):
                         fails.append(_fail(r, idx, "refresh of account %d replaced log entry %s: slate/amounts %s -> %s"
                                            % (parent, (t["parent"], t["id"]),
                                               (p0["slate"], p0["credited"], p0["debited"]), (t["slate"], t["credited"], t["debited"]))))
-            if k == "refresh" and s["op"]["all"] and s["rc"] == [0] and s["op"]["view"]["tip"] >= 0:
+            # a refresh that could not query the UTXO set knows nothing about the chain: the books stay
+            if s["op"].get("outage") and idx > 0:
+                pv = r["steps"][idx - 1]["snap"]
+                po = {(o["acct"], o["child"], o["mmr"]): (o["status"], o["value"], o["height"]) for o in pv["outputs"]}
+                no = {(o["acct"], o["child"], o["mmr"]): (o["status"], o["value"], o["height"]) for o in snap["outputs"]}
+                pt = {(t["parent"], t["id"]): (t["type"], t["confirmed"]) for t in pv["txs"]}
+                nt = {(t["parent"], t["id"]): (t["type"], t["confirmed"]) for t in snap["txs"]}
+                if po != no or pt != nt:
+                    ch = [kk for kk in set(po) | set(no) if po.get(kk) != no.get(kk)] + \
+                         [kk for kk in set(pt) | set(nt) if pt.get(kk) != nt.get(kk)]
+                    fails.append(_fail(r, idx, "%s whose output query failed changed the books: %s" % (k, sorted(ch)[:4])))
+            if s["extra"].get("unreserved_spend"):
+                dirty = True
+            # a full refresh always; a partial one (only outputs of outstanding transactions are queried)
+            # and owner::update_wallet_state in histories the property covers: nothing cancelled, no
+            # scan dropping pending transactions, no broadcast spend the wallet never reserved
+            is_refresh = k == "refresh" and (s["op"]["all"] or (equation and not had_cancel and not dirty)) \
+                and s["op"]["view"]["tip"] >= 0
+            is_update = k == "update_state" and equation and not had_cancel and not dirty and "truth" in s["extra"]
+            if (is_refresh or is_update) and s["rc"] == [0] and not s["op"].get("outage"):
                 truth = {(t[0], t[1], t[2]): t[3] for t in s["extra"].get("truth", [])}
                 parent = s["op"]["parent"]
                 for o in snap["outputs"]:
@@ -637,15 +659,15 @@ def oracle_c04(rows, equation=True):
                     if on_chain is None:
                         continue
                     if o["status"] in (1, 2) and not on_chain:
-                        fails.append(_fail(r, idx, "after full refresh output %s is recorded status %d but is not in the UTXO set"
+                        fails.append(_fail(r, idx, "after refresh output %s is recorded status %d but is not in the UTXO set"
                                            % ((o["acct"], o["child"]), o["status"])))
                     if o["status"] in (0, 4) and on_chain:
-                        fails.append(_fail(r, idx, "after full refresh output %s is in the UTXO set but recorded status %d"
+                        fails.append(_fail(r, idx, "after refresh output %s is in the UTXO set but recorded status %d"
                                            % ((o["acct"], o["child"]), o["status"])))
             # (not for a wallet whose outputs were spent by a broadcast transaction it never reserved —
             # tx_lock_outputs skipped: the wallet has no record of that spend to account for)
             if equation and k == "update_state" and s["rc"] == [0] and not had_cancel \
-                    and not s["extra"].get("unreserved_spend"):
+                    and not s["extra"].get("unreserved_spend") and not s["op"].get("outage"):
                 cred = sum(int(t["credited"]) - int(t["debited"]) for t in snap["txs"]
                            if t["parent"] == act and t["confirmed"])
                 held = sum(int(o["value"]) for o in snap["outputs"] if o["root"] == act and o["status"] in (1, 2))
